@@ -88,6 +88,33 @@ impl Scorer for VecScorer {
     }
 }
 
+/// a boxed Scorer seen as a boxed DocSet (every method forwarded)
+struct AsDocSet(Box<dyn Scorer>);
+/// a boxed DocSet seen as a Scorer with score 1 (every method forwarded, so that the wrapped
+/// type's own `count_including_deleted` / `fill_bitset_block` are reached)
+struct FullFwd(Box<dyn DocSet>);
+macro_rules! forward_docset {
+    ($t:ty) => {
+        impl DocSet for $t {
+            fn advance(&mut self) -> DocId { self.0.advance() }
+            fn seek(&mut self, target: DocId) -> DocId { self.0.seek(target) }
+            fn fill_buffer(&mut self, buffer: &mut [DocId; COLLECT_BLOCK_BUFFER_LEN]) -> usize { self.0.fill_buffer(buffer) }
+            fn fill_bitset_block(&mut self, min_doc: DocId, mask: &mut [TinySet; BLOCK_NUM_TINYBITSETS]) -> DocId { self.0.fill_bitset_block(min_doc, mask) }
+            fn doc(&self) -> DocId { self.0.doc() }
+            fn size_hint(&self) -> u32 { self.0.size_hint() }
+            fn cost(&self) -> u64 { self.0.cost() }
+            fn count_including_deleted(&mut self) -> u32 { self.0.count_including_deleted() }
+        }
+    };
+}
+forward_docset!(AsDocSet);
+forward_docset!(FullFwd);
+impl Scorer for FullFwd {
+    fn score(&mut self) -> f32 {
+        1.0
+    }
+}
+
 // ------------------------------------------------------------------------------------------
 // scorer trees
 // ------------------------------------------------------------------------------------------
@@ -100,6 +127,10 @@ enum T {
     Inter { cs: Vec<T>, num_docs: u32 },
     Excl { u: Box<T>, es: Vec<T>, single: bool },
     ReqOpt { sum: bool, req: Box<T>, opt: Box<T> },
+    /// `SimpleUnion` (a DocSet, not a Scorer: score 1)
+    SUnion { cs: Vec<T> },
+    /// `Disjunction` (minimum-should-match heap), `min_match >= 2`
+    Disj { sum: bool, min_match: usize, cs: Vec<T> },
 }
 
 fn merge(a: &[u32], b: &[u32]) -> Vec<u32> {
@@ -130,6 +161,16 @@ impl T {
                 acc
             }
             T::ReqOpt { req, .. } => req.docs(),
+            T::SUnion { cs } => cs.iter().fold(vec![], |acc, c| merge(&acc, &c.docs())),
+            T::Disj { min_match, cs, .. } => {
+                let mut cnt: std::collections::BTreeMap<u32, usize> = Default::default();
+                for c in cs {
+                    for d in c.docs() {
+                        *cnt.entry(d).or_insert(0) += 1;
+                    }
+                }
+                cnt.into_iter().filter(|(_, n)| *n >= *min_match).map(|(d, _)| d).collect()
+            }
         }
     }
     /// brute-force score of document `d` (None: not a member)
@@ -148,12 +189,17 @@ impl T {
                 if es.iter().any(|e| e.score_at(d).is_some()) { None } else { u.score_at(d) }
             }
             T::ReqOpt { sum, req, opt } => req.score_at(d).map(|r| if *sum { r + opt.score_at(d).unwrap_or(0) } else { 1 }),
+            T::SUnion { cs } => if cs.iter().any(|c| c.score_at(d).is_some()) { Some(1) } else { None },
+            T::Disj { sum, min_match, cs } => {
+                let v: Vec<u32> = cs.iter().filter_map(|c| c.score_at(d)).collect();
+                if v.len() < *min_match { None } else if *sum { Some(v.iter().sum()) } else { Some(1) }
+            }
         }
     }
     fn depth(&self) -> usize {
         match self {
             T::Leaf { .. } => 0,
-            T::BUnion { cs, .. } | T::Inter { cs, .. } => 1 + cs.iter().map(|c| c.depth()).max().unwrap_or(0),
+            T::BUnion { cs, .. } | T::Inter { cs, .. } | T::SUnion { cs } | T::Disj { cs, .. } => 1 + cs.iter().map(|c| c.depth()).max().unwrap_or(0),
             T::Excl { u, es, .. } => 1 + u.depth().max(es.iter().map(|c| c.depth()).max().unwrap_or(0)),
             T::ReqOpt { req, opt, .. } => 1 + req.depth().max(opt.depth()),
         }
@@ -166,13 +212,15 @@ impl T {
             T::Inter { .. } => "inter",
             T::Excl { .. } => "excl",
             T::ReqOpt { .. } => "reqopt",
+            T::SUnion { .. } => "sunion",
+            T::Disj { .. } => "disj",
         }
     }
     fn has_nested_bunion_in_bunion(&self) -> bool {
         match self {
             T::Leaf { .. } => false,
             T::BUnion { cs, .. } => cs.iter().any(|c| matches!(c, T::BUnion { .. }) || c.has_nested_bunion_in_bunion()),
-            T::Inter { cs, .. } => cs.iter().any(|c| c.has_nested_bunion_in_bunion()),
+            T::Inter { cs, .. } | T::SUnion { cs } | T::Disj { cs, .. } => cs.iter().any(|c| c.has_nested_bunion_in_bunion()),
             T::Excl { u, es, .. } => u.has_nested_bunion_in_bunion() || es.iter().any(|c| c.has_nested_bunion_in_bunion()),
             T::ReqOpt { req, opt, .. } => req.has_nested_bunion_in_bunion() || opt.has_nested_bunion_in_bunion(),
         }
@@ -184,7 +232,7 @@ impl T {
         match self {
             T::Leaf { .. } => false,
             T::BUnion { .. } => true,
-            T::Inter { cs, .. } => cs.iter().any(|c| c.has_bunion()),
+            T::Inter { cs, .. } | T::SUnion { cs } | T::Disj { cs, .. } => cs.iter().any(|c| c.has_bunion()),
             T::Excl { u, es, .. } => u.has_bunion() || es.iter().any(|c| c.has_bunion()),
             T::ReqOpt { req, opt, .. } => req.has_bunion() || opt.has_bunion(),
         }
@@ -192,7 +240,7 @@ impl T {
     fn has_bitset(&self) -> bool {
         match self {
             T::Leaf { kind, .. } => *kind == 2,
-            T::BUnion { cs, .. } | T::Inter { cs, .. } => cs.iter().any(|c| c.has_bitset()),
+            T::BUnion { cs, .. } | T::Inter { cs, .. } | T::SUnion { cs } | T::Disj { cs, .. } => cs.iter().any(|c| c.has_bitset()),
             T::Excl { u, es, .. } => u.has_bitset() || es.iter().any(|c| c.has_bitset()),
             T::ReqOpt { req, opt, .. } => req.has_bitset() || opt.has_bitset(),
         }
@@ -205,6 +253,8 @@ impl T {
             T::Inter { cs, num_docs } => T::Inter { cs: cs.iter().map(|c| c.without_bitset()).collect(), num_docs: *num_docs },
             T::Excl { u, es, single } => T::Excl { u: Box::new(u.without_bitset()), es: es.iter().map(|c| c.without_bitset()).collect(), single: *single },
             T::ReqOpt { sum, req, opt } => T::ReqOpt { sum: *sum, req: Box::new(req.without_bitset()), opt: Box::new(opt.without_bitset()) },
+            T::SUnion { cs } => T::SUnion { cs: cs.iter().map(|c| c.without_bitset()).collect() },
+            T::Disj { sum, min_match, cs } => T::Disj { sum: *sum, min_match: *min_match, cs: cs.iter().map(|c| c.without_bitset()).collect() },
         }
     }
     /// the same document sets with buffered unions nested directly in buffered unions flattened
@@ -224,6 +274,8 @@ impl T {
             T::Inter { cs, num_docs } => T::Inter { cs: cs.iter().map(|c| c.flatten_unions()).collect(), num_docs: *num_docs },
             T::Excl { u, es, single } => T::Excl { u: Box::new(u.flatten_unions()), es: es.iter().map(|c| c.flatten_unions()).collect(), single: *single },
             T::ReqOpt { sum, req, opt } => T::ReqOpt { sum: *sum, req: Box::new(req.flatten_unions()), opt: Box::new(opt.flatten_unions()) },
+            T::SUnion { cs } => T::SUnion { cs: cs.iter().map(|c| c.flatten_unions()).collect() },
+            T::Disj { sum, min_match, cs } => T::Disj { sum: *sum, min_match: *min_match, cs: cs.iter().map(|c| c.flatten_unions()).collect() },
         }
     }
 }
@@ -286,6 +338,19 @@ fn build(t: &T) -> Built {
             } else {
                 Box::new(Exclude::new(bu.scorer, excl))
             };
+            Built { scorer, model, dense: false }
+        }
+        T::SUnion { cs } => {
+            let bs: Vec<Built> = cs.iter().map(build).collect();
+            let model = format!("su;{};{}", bs.len(), bs.iter().map(|b| b.model.clone()).collect::<Vec<_>>().join(";"));
+            let children: Vec<Box<dyn DocSet>> = bs.into_iter().map(|b| Box::new(AsDocSet(b.scorer)) as Box<dyn DocSet>).collect();
+            Built { scorer: Box::new(FullFwd(tantivy::verif::simple_union(children))), model, dense: false }
+        }
+        T::Disj { sum, min_match, cs } => {
+            let bs: Vec<Built> = cs.iter().map(build).collect();
+            let model = format!("dj;{};{};{};{}", *sum as u8, min_match, bs.len(), bs.iter().map(|b| b.model.clone()).collect::<Vec<_>>().join(";"));
+            let children: Vec<Box<dyn Scorer>> = bs.into_iter().map(|b| b.scorer).collect();
+            let scorer = if *sum { tantivy::verif::disjunction_sum(children, *min_match) } else { tantivy::verif::disjunction_do_nothing(children, *min_match) };
             Built { scorer, model, dense: false }
         }
         T::ReqOpt { sum, req, opt } => {
@@ -390,7 +455,16 @@ fn gen_tree(rng: &mut Rng, depth: usize, max_doc: u32, pool: &mut Vec<Vec<u32>>)
         return l;
     }
     let num_docs = *rng.pick(&[1u32, max_doc + 1, 1_000_000]);
-    match rng.below(10) {
+    match rng.below(13) {
+        10 => {
+            let n = *rng.pick(&[1usize, 2, 2, 3, 4]);
+            return T::SUnion { cs: (0..n).map(|_| gen_tree(rng, depth - 1, max_doc, pool)).collect() };
+        }
+        11 | 12 => {
+            let n = *rng.pick(&[1usize, 2, 3, 3, 4, 5]);
+            let k = 2 + rng.usize_below(3);
+            return T::Disj { sum: rng.chance(2, 3), min_match: k, cs: (0..n).map(|_| gen_tree(rng, depth - 1, max_doc, pool)).collect() };
+        }
         0..=3 => {
             let n = *rng.pick(&[1usize, 2, 2, 3, 4]);
             T::BUnion { sum: rng.chance(2, 3), cs: (0..n).map(|_| gen_tree(rng, depth - 1, max_doc, pool)).collect(), num_docs }
